@@ -327,6 +327,108 @@ pub trait MRetSrvAsync {
     async fn ret_list(&self) -> Result<Vec<sim_ir::Leaf>, Error>;
 }
 
+/// exists only as macro traits: a multi-segment path parameter, a query key the macro has to escape
+#[conjure_client(name = "MacroOnly")]
+pub trait MOnly {
+    #[endpoint(method = GET, path = "/mo/{head}/raw/{tail}", name = "segments", accept = ConjureResponseDeserializer)]
+    fn segments(
+        &self,
+        #[path] head: &str,
+        #[path(encoder = DisplaySeqEncoder)] tail: &[String],
+        #[query(name = "k&ey", encoder = DisplaySeqEncoder)] q: &[i32],
+    ) -> Result<String, Error>;
+}
+
+#[conjure_client(name = "MacroOnly")]
+pub trait MOnlyAsync {
+    #[endpoint(method = GET, path = "/mo/{head}/raw/{tail}", name = "segments", accept = ConjureResponseDeserializer)]
+    async fn segments(
+        &self,
+        #[path] head: &str,
+        #[path(encoder = DisplaySeqEncoder)] tail: &[String],
+        #[query(name = "k&ey", encoder = DisplaySeqEncoder)] q: &[i32],
+    ) -> Result<String, Error>;
+}
+
+#[conjure_endpoints(name = "MacroOnly")]
+pub trait MOnlySrv {
+    #[endpoint(method = GET, path = "/mo/{head}/raw/{tail}", name = "segments", produces = StdResponseSerializer)]
+    fn segments(
+        &self,
+        #[path] head: String,
+        #[path(decoder = FromStrSeqDecoder<_>)] tail: Vec<String>,
+        #[query(name = "k&ey", decoder = FromStrSeqDecoder<_>, log_as = "q")] q: Vec<i32>,
+    ) -> Result<String, Error>;
+}
+
+#[conjure_endpoints(name = "MacroOnly")]
+pub trait MOnlySrvAsync {
+    #[endpoint(method = GET, path = "/mo/{head}/raw/{tail}", name = "segments", produces = StdResponseSerializer)]
+    async fn segments(
+        &self,
+        #[path] head: String,
+        #[path(decoder = FromStrSeqDecoder<_>)] tail: Vec<String>,
+        #[query(name = "k&ey", decoder = FromStrSeqDecoder<_>, log_as = "q")] q: Vec<i32>,
+    ) -> Result<String, Error>;
+}
+
+macro_rules! only_handler_impl {
+    ($trait_:ident, $($async_:ident)?) => {
+        impl $trait_ for Handler {
+            $($async_)? fn segments(&self, head: String, tail: Vec<String>, q: Vec<i32>) -> Result<String, Error> {
+                crate::glue::take_ret::<String>(self.enter(idx("MacroOnly", "segments"), vec![("head", bx(head)), ("tail", bx(tail)), ("q", bx(q))], None)?)
+            }
+        }
+    };
+}
+only_handler_impl!(MOnlySrv,);
+only_handler_impl!(MOnlySrvAsync, async);
+
+/// endpoints that have no generated counterpart: always present in the server's endpoint list
+pub fn macro_only_endpoints_blocking(h: &Handler, rt: &Arc<ConjureRuntime>) -> Vec<SyncEp> {
+    use conjure_http::server::Service;
+    MOnlySrvEndpoints::new(h.clone()).endpoints(rt)
+}
+
+pub fn macro_only_endpoints_async(h: &Handler, rt: &Arc<ConjureRuntime>) -> Vec<AsyncEp> {
+    use conjure_http::server::AsyncService;
+    MOnlySrvAsyncEndpoints::new(h.clone()).endpoints(rt)
+}
+
+pub fn gen_args(ep: usize, t: &mut crate::tape::Tape, g: &crate::glue::GenKnobs) -> Vec<ArgVal> {
+    use crate::glue::{Gen, Kind};
+    if ep < ir().generated {
+        return crate::glue_gen::gen_args(ep, t, g);
+    }
+    let head = <String as Gen>::gen(t, &g.at(Kind::Path, false));
+    let mut tail = <Vec<String> as Gen>::gen(t, &g.at(Kind::Path, false));
+    if tail.is_empty() {
+        // zero items would mean zero segments: not routable to this template
+        tail.push(<String as Gen>::gen(t, &g.at(Kind::Path, false)));
+    }
+    let q = <Vec<i32> as Gen>::gen(t, &g.at(Kind::Query, false));
+    vec![ArgVal::new("head", bx(head)), ArgVal::new("tail", bx(tail)), ArgVal::new("q", bx(q))]
+}
+
+pub fn gen_ret(ep: usize, t: &mut crate::tape::Tape, g: &crate::glue::GenKnobs) -> Box<dyn DynVal> {
+    use crate::glue::{Gen, Kind};
+    if ep < ir().generated {
+        return crate::glue_gen::gen_ret(ep, t, g);
+    }
+    bx(<String as Gen>::gen(t, &g.at(Kind::Return, false)))
+}
+
+pub fn ret_from_json(ep: usize, doc: &str) -> Option<Box<dyn DynVal>> {
+    if ep < ir().generated {
+        return crate::glue_gen::ret_from_json(ep, doc);
+    }
+    conjure_serde::json::client_from_str::<String>(doc).ok().map(bx)
+}
+
+pub fn macro_only(ep: usize) -> bool {
+    ep >= ir().generated
+}
+
 fn idx(service: &str, name: &str) -> usize {
     ir().ep(service, name).idx
 }
@@ -422,6 +524,7 @@ pub fn macro_client_covers(ep: usize) -> bool {
             | ("ReturnService", "retOptString")
             | ("ReturnService", "retList")
             | ("BodyService", "bodyNode")
+            | ("MacroOnly", "segments")
     )
 }
 
@@ -454,6 +557,7 @@ pub fn call_blocking(tr: &SimTransport, kind: ClientKind, ep: usize, args: &[Arg
         (ClientKind::Macro, "ReturnService", "retOptString") => MRetClient::new(tr.clone()).ret_opt_string().map(bx),
         (ClientKind::Macro, "ReturnService", "retList") => MRetClient::new(tr.clone()).ret_list().map(bx),
         (ClientKind::Macro, "BodyService", "bodyNode") => MBodyClient::new(tr.clone()).body_node(args[0].get()).map(bx),
+        (_, "MacroOnly", "segments") => MOnlyClient::new(tr.clone()).segments(args[0].get::<String>(), args[1].get::<Vec<String>>(), args[2].get::<Vec<i32>>()).map(bx),
         (ClientKind::Smile, "ReturnService", "retNode") => SRetClient::new(tr.clone()).ret_node().map(bx),
         (ClientKind::Smile, "ReturnService", "retKeys") => SRetClient::new(tr.clone()).ret_keys().map(bx),
         (ClientKind::Smile, "ReturnService", "retDouble") => SRetClient::new(tr.clone()).ret_double().map(bx),
@@ -482,6 +586,7 @@ pub async fn call_async(tr: &SimTransport, kind: ClientKind, ep: usize, args: &[
         (ClientKind::Macro, "ReturnService", "retOptString") => MRetAsyncClient::new(tr.clone()).ret_opt_string().await.map(bx),
         (ClientKind::Macro, "ReturnService", "retList") => MRetAsyncClient::new(tr.clone()).ret_list().await.map(bx),
         (ClientKind::Macro, "BodyService", "bodyNode") => MBodyAsyncClient::new(tr.clone()).body_node(args[0].get()).await.map(bx),
+        (_, "MacroOnly", "segments") => MOnlyAsyncClient::new(tr.clone()).segments(args[0].get::<String>(), args[1].get::<Vec<String>>(), args[2].get::<Vec<i32>>()).await.map(bx),
         (ClientKind::Smile, "ReturnService", "retNode") => SRetAsyncClient::new(tr.clone()).ret_node().await.map(bx),
         (ClientKind::Smile, "ReturnService", "retKeys") => SRetAsyncClient::new(tr.clone()).ret_keys().await.map(bx),
         (ClientKind::Smile, "ReturnService", "retDouble") => SRetAsyncClient::new(tr.clone()).ret_double().await.map(bx),
